@@ -1704,4 +1704,67 @@ theorem pickPkGo_spec (ps : List (Str × Option Str)) (dflt : Str) :
       · simp only [pickPkGo, h, ↓reduceIte, List.find?_cons, isPkDoc]
       · simp only [pickPkGo, h, Bool.false_eq_true, ↓reduceIte, ih, List.find?_cons, isPkDoc]
 
+/-! ### `parse_model` / `infer`: which nodes of the models file become tables -/
+
+def SrcNode.table? : SrcNode → Option Table
+  | .classDef _ t => t
+  | .call _ _ t => t
+
+/-- every class whose plain-name bases contain `Base` — in ANY position — is kept -/
+theorem discover_keeps_base_class (nodes : List SrcNode) (ts : List Table) (h : discover nodes = .ok ts)
+    (bases : List Str) (t : Table) (hn : SrcNode.classDef bases (some t) ∈ nodes) (hb : c!"Base" ∈ bases) : t ∈ ts := by
+  induction nodes generalizing ts with
+  | nil => cases hn
+  | cons n rest ih =>
+    simp only [discover] at h
+    split at h
+    · cases h
+    · rename_i k hk
+      rcases List.mem_cons.mp hn with rfl | hmem
+      · have hany : (bases.any (· == c!"Base")) = true := by
+          rw [List.any_eq_true]; exact ⟨_, hb, by simp⟩
+        simp only [inferNode, hany, ↓reduceIte, Except.ok.injEq] at hk
+        subst hk
+        simp only [beq_self_eq_true, Bool.true_or, ↓reduceIte] at h
+        split at h
+        · simp only [Except.ok.injEq] at h; subst h; exact List.mem_cons_self
+        · cases h
+      · split at h
+        · split at h
+          · cases h
+          · rename_i t' _
+            split at h
+            · rename_i ts' hts
+              simp only [Except.ok.injEq] at h; subst h
+              exact List.mem_cons_of_mem _ (ih ts' hts hmem)
+            · cases h
+        · exact ih ts h hmem
+
+/-- every table produced comes from a node -/
+theorem discover_sub (nodes : List SrcNode) (ts : List Table) (h : discover nodes = .ok ts) :
+    ∀ t ∈ ts, ∃ n ∈ nodes, n.table? = some t := by
+  induction nodes generalizing ts with
+  | nil => simp only [discover, Except.ok.injEq] at h; subst h; intro t ht; cases ht
+  | cons n rest ih =>
+    simp only [discover] at h
+    split at h
+    · cases h
+    · split at h
+      · split at h
+        · cases h
+        · rename_i t' ht'
+          split at h
+          · rename_i ts' hts
+            simp only [Except.ok.injEq] at h; subst h
+            intro t ht
+            rcases List.mem_cons.mp ht with rfl | ht
+            · refine ⟨n, List.mem_cons_self, ?_⟩
+              cases n <;> exact ht'
+            · obtain ⟨m, hm, hmt⟩ := ih ts' hts t ht
+              exact ⟨m, List.mem_cons_of_mem _ hm, hmt⟩
+          · cases h
+      · intro t ht
+        obtain ⟨m, hm, hmt⟩ := ih ts h t ht
+        exact ⟨m, List.mem_cons_of_mem _ hm, hmt⟩
+
 end OpenApi
